@@ -531,7 +531,9 @@ func (fx *fctx) callStatic(st *State, fn *types.Func, recvExpr ast.Expr, sel *ty
 			}
 			for _, cl := range con.Requires {
 				g := fx.evalClause(st, nil, cl, bind)
-				fx.assert(st, "call-requires", detail+"/pre"+fmt.Sprint(cl.Ord), g, ce, propsOr(cl.Props, fx.props), "precondition of "+fi.Key+": "+cl.Text)
+				if !(cl.ObjInv && fx.isClientOf(fi)) {
+					fx.assert(st, "call-requires", detail+"/pre"+fmt.Sprint(cl.Ord), g, ce, propsOr(cl.Props, fx.props), "precondition of "+fi.Key+": "+cl.Text)
+				}
 				st.assume(g)
 			}
 		}
@@ -555,6 +557,36 @@ func (fx *fctx) callStatic(st *State, fn *types.Func, recvExpr ast.Expr, sel *ty
 		return res
 	}
 	return fx.callContract(st, fi, con, recv, args, ce)
+}
+
+// recvTypeName: the receiver's named type of a method ("" for functions).
+func recvTypeName(fi *FuncInfo) string {
+	if fi == nil || fi.Obj == nil {
+		return ""
+	}
+	sig, ok := fi.Obj.Type().(*types.Signature)
+	if !ok || sig.Recv() == nil {
+		return ""
+	}
+	t := sig.Recv().Type()
+	if p, ok := t.(*types.Pointer); ok {
+		t = p.Elem()
+	}
+	if n, ok := t.(*types.Named); ok {
+		return n.Obj().Name()
+	}
+	return ""
+}
+
+// isClientOf: the function being verified is not a method of callee's receiver type, so the callee's object invariant
+// (`holds`) may be assumed at the call (see the `holds` clause).
+func (fx *fctx) isClientOf(callee *FuncInfo) bool {
+	rt := recvTypeName(callee)
+	if rt == "" || recvTypeName(fx.fi) == rt {
+		return false
+	}
+	fx.e.Assumptions["object invariant of "+rt+" assumed at client call sites (justified by frame:"+rt+"/representation-private, frame:"+rt+"/methods-hold-invariant and the zero-value lemma)"] = true
+	return true
 }
 
 // autoInlinable: an in-package function without a contract whose body is short, loop-free and calls nothing but
@@ -859,7 +891,9 @@ func (fx *fctx) callContract(st *State, fi *FuncInfo, con *Contract, recv *Value
 		for _, cl := range con.Requires {
 			g := fx.evalClause(st, nil, cl, bind)
 			props := cl.Props
-			fx.assert(st, "call-requires", detail+"/pre"+fmt.Sprint(cl.Ord), g, ce, propsOr(props, fx.props), "precondition of "+fi.Key+": "+cl.Text)
+			if !(cl.ObjInv && fx.isClientOf(fi)) {
+				fx.assert(st, "call-requires", detail+"/pre"+fmt.Sprint(cl.Ord), g, ce, propsOr(props, fx.props), "precondition of "+fi.Key+": "+cl.Text)
+			}
 			st.assume(g)
 		}
 	}
@@ -1231,6 +1265,10 @@ func (fx *fctx) intrinsic(st *State, name string, ce *ast.CallExpr) ([]*Value, b
 			e.unsup(ce, "mapHas on a map type without `mapmodel`")
 		}
 		return []*Value{{T: t, Tm: e.mapHas(st, e.mapHeapsOf(mt), mv.Tm, kv.Tm)}}, true
+	case "sameMap":
+		a := fx.eval(st, ce.Args[0])
+		b := fx.eval(st, ce.Args[1])
+		return []*Value{{T: t, Tm: ts.Eq(a.Tm, b.Tm)}}, true
 	case "rangeSeen":
 		kv := fx.eval(st, ce.Args[0])
 		var sv *types.Var
@@ -1482,7 +1520,42 @@ func (fx *fctx) callDynamic(st *State, fv *Value, what string, ce *ast.CallExpr)
 	}
 	e.Assumptions["host callback ("+what+") returns normally and respects type invariants"] = true
 	preCB := st.clone()
+	// `callbacks-keep`: heaps the callback is assumed not to modify are materialised before and restored after the havoc
+	type keptHeap struct {
+		key  string
+		sort Sort
+	}
+	var kept []keptHeap
+	if fx.con != nil && len(fx.con.CallbackKeep) > 0 {
+		for _, k := range fx.con.CallbackKeep {
+			if strings.HasPrefix(k, "map.") {
+				for _, mt := range e.modelledMapTypes() {
+					h := e.mapHeapsOf(mt)
+					if h.base == k {
+						kept = append(kept, keptHeap{h.base + "#dom", h.domS}, keptHeap{h.base + "#val", h.valS}, keptHeap{h.base + "#len", ArrSort(SInt)})
+					}
+				}
+				continue
+			}
+			if strings.HasPrefix(k, "elem.*") {
+				kept = append(kept, keptHeap{k, ArrSort(SInt)}) // cells holding pointers
+				continue
+			}
+			if srt, ok := e.sortOfFieldKey(k); ok {
+				kept = append(kept, keptHeap{k, ArrSort(srt)})
+			} else {
+				e.unsup(ce, "callbacks-keep %s: not a scalar struct field or a modelled map", k)
+			}
+		}
+		for _, kh := range kept {
+			e.heapGet(preCB, kh.key, kh.sort)
+		}
+		e.Assumptions["ASSUMED in "+fx.fi.Key+": function values called here do not modify "+strings.Join(fx.con.CallbackKeep, ", ")+" (callbacks-keep)"] = true
+	}
 	e.havocAll(st)
+	for _, kh := range kept {
+		st.heap[kh.key] = e.heapGet(preCB, kh.key, kh.sort)
+	}
 	fx.protectFrame(st, preCB)
 	na := ts.Fresh("alloc", SInt)
 	st.assume(ts.Ge(na, st.alloc))
